@@ -17,6 +17,8 @@ namespace Liftbridge.Props.GoPartition
 open Liftbridge Liftbridge.GoMini Liftbridge.GoCode
 open Liftbridge.Gen.GoPartition Liftbridge.GoPartitionEnv
 
+attribute [local gomini] runFor_succ
+
 /-- every construct of the translated functions is inside the subset -/
 theorem translation_complete : unsupported = [] := rfl
 
